@@ -1433,9 +1433,10 @@ PROJECT_NATIVE_TEST = r"""
             vec![1], vec![2], vec![3], vec![5], vec![8], vec![3, 3], vec![3, 5], vec![5, 3], vec![1, 4], vec![4, 1], vec![2, 2],
             vec![3, 3, 3], vec![2, 3, 4], vec![3, 1, 2], vec![3, 3, 1], vec![1, 3, 3],
         ];
-        for from in &shapes {
+        for (from, scale) in shapes.iter().flat_map(|f| [1.0f64, 1e-18, 1e-300, 1e12].map(move |s| (f, s))) {
             let n: usize = from.iter().product();
-            let x: Vec<f64> = (0..n).map(|i| ((i * 7 + 3) % 11) as f64 * 0.5).collect();
+            // zeros, ordinary values and (by the scale) values far below f64::EPSILON and far above 2^32
+            let x: Vec<f64> = (0..n).map(|i| ((i * 7 + 3) % 11) as f64 * 0.5 * scale).collect();
             let scs = Scs::new(x.clone(), crate::array::Shape(from.clone())).unwrap();
             for to in &shapes {
                 let got = scs.project(crate::array::Shape(to.clone()));
@@ -1460,7 +1461,7 @@ PROJECT_NATIVE_TEST = r"""
                         want += w;
                     }
                     let g = got.inner().iter().nth(k).copied().unwrap();
-                    assert!((g - want).abs() <= 1e-9 * want.abs().max(1.0), "projecting shape {from:?} to {to:?}: cell {kk:?} is {g}, the definition gives {want}");
+                    assert!((g - want).abs() <= 1e-9 * want.abs().max(scale), "projecting shape {from:?} (values of order {scale:e}) to {to:?}: cell {kk:?} is {g:e}, the definition gives {want:e}");
                 }
             }
         }
